@@ -40,7 +40,7 @@ theorem barrierLoop_spec (suff : Nat → Nat → Bool) (excl : List Nat) :
       by_cases hall : (c.all fun j => suff i j) = true
       · rw [if_pos hall]
         obtain ⟨new, h1, h2, h3, h4, h5, h6⟩ := ih (b ++ [i]) (c ++ [i])
-        refine ⟨i :: new, ?_, h2.cons₂ _, ?_, ?_, ?_, ?_⟩
+        refine ⟨i :: new, ?_, h2.cons_cons _, ?_, ?_, ?_, ?_⟩
         · rw [h1]; simp
         · intro x hx
           rcases List.mem_cons.1 hx with rfl | hx
@@ -112,8 +112,7 @@ theorem mem_nbrs (es : List (WEdge α)) (i j : Nat) :
     · by_cases hu' : x.u = i
       · have : j = i := by rw [← hu, hu']
         simp [hu', hv, this]
-      · have hu'' : (x.u == i) = false := by simpa using hu'
-        simp [hu'', hv, hu]
+      · rw [if_neg (by simpa using hu'), if_pos (by simpa using hv), hu]
 
 /-- **Monotonic** returns exactly the allowed minima that have a connection (a self-connection
     counts) and no allowed neighbour other than themselves of lower-or-equal value. -/
@@ -173,7 +172,8 @@ theorem C17_lowest_sorted (energy : Nat → α) (order excl : List Nat)
 theorem C17_coords {γ : Type} (coords : Nat → γ) (batch : List Nat) :
     (positions coords batch).length = batch.length ∧
     ∀ k (h : k < batch.length), (positions coords batch)[k]? = some (coords batch[k]) := by
-  simp [positions]
+  refine ⟨by simp [positions], fun k h => ?_⟩
+  simp [positions, List.getElem?_eq_getElem h]
 
 /-! ### generate_batch: allowed, distinct -/
 
@@ -300,12 +300,9 @@ theorem C17_size_le (b : List Nat)
     (h : selectBatch g stdBCfg net size scheme fixed bc excl = some b) : b.length ≤ size := by
   obtain ⟨b0, _, rfl⟩ := selectBatch_cases g net excl size scheme fixed bc b h
   simp only
-  split
-  · simp [List.length_take]
-  · omega
+  split_ifs <;> first | omega | (simp only [List.length_take]; omega)
 
-theorem length_lowest_ge (order excl b0 : List Nat) (hnd : order.Nodup) (hb : b0.Nodup)
-    (hsub : ∀ i ∈ b0, i ∈ order ∧ i ∉ excl) :
+theorem length_lowest_ge (order excl b0 : List Nat) (hnd : order.Nodup) :
     (lowest order excl).length ≤ b0.length + (lowest order (excl ++ b0)).length := by
   unfold lowest
   rw [← List.countP_eq_length_filter, ← List.countP_eq_length_filter]
@@ -317,12 +314,12 @@ theorem length_lowest_ge (order excl b0 : List Nat) (hnd : order.Nodup) (hb : b0
     have hss : order.filter (fun i => b0.contains i) ⊆ b0 := by
       intro a ha; simpa using (List.mem_filter.1 ha).2
     exact (hnd'.subperm hss).length_le
-  have h2 : List.countP (fun i => !(excl.contains i)) (order.filter (fun a => ¬(b0.contains a) = true))
+  have h2 : List.countP (fun i => !(excl.contains i)) (order.filter (fun a => !(b0.contains a)))
       = List.countP (fun i => !((excl ++ b0).contains i)) order := by
     rw [List.countP_filter]
     apply List.countP_congr
     intro a _
-    simp [List.mem_append, not_or]
+    simp [List.mem_append]
   omega
 
 /-- a fixed-size request is met whenever enough allowed minima exist -/
@@ -331,7 +328,7 @@ theorem C17_fixed_fills (hnd : net.order.Nodup) (b : List Nat)
     (henough : size ≤ (lowest net.order excl).length) : b.length = size := by
   obtain ⟨b0, hb0, rfl⟩ := selectBatch_cases g net excl size scheme true bc b h
   obtain ⟨hn0, he0⟩ := generate_good g net excl _ scheme b0 hnd hb0
-  have hlen := length_lowest_ge net.order excl b0 hnd hn0 he0
+  have hlen := length_lowest_ge net.order excl b0 hnd
   simp only [Bool.true_and, decide_eq_true_eq]
   by_cases hlt : b0.length < size
   · rw [if_pos hlt]
@@ -353,25 +350,17 @@ theorem sufficient_true (ho : Option α) (ei ej cut : α)
   cases ho with
   | none =>
     exfalso
-    have hlt : ((1000000000 : Nat) : α) < ((10000000000 : Nat) : α) := Nat.cast_lt.2 (by norm_num)
-    simp [sufficient, stdBCfg, Cmp.eval, hlt] at h
+    simp [sufficient, stdBCfg, Cmp.eval] at h
+    have := h.1
+    norm_num at this
   | some hv =>
     refine ⟨hv, rfl, ?_⟩
-    simp only [sufficient, stdBCfg, Cmp.eval, if_true] at h
-    by_cases h1 : ((1000000000 : Nat) : α) < hv
-    · simp [h1] at h
-    · simp only [h1, decide_false, Bool.false_eq_true, if_false] at h
-      have h1' : hv ≤ 1000000000 := by simpa using not_lt.1 h1
-      refine ⟨h1', ?_⟩
-      by_cases h2 : hv - ej < hv - ei
-      · simp only [h2, if_true] at h
-        by_cases h3 : hv - ej < cut
-        · simp [h3] at h
-        · exact ⟨le_trans (not_lt.1 h3) (le_of_lt h2), not_lt.1 h3⟩
-      · simp only [h2, if_false] at h
-        by_cases h3 : hv - ei < cut
-        · simp [h3] at h
-        · exact ⟨not_lt.1 h3, le_trans (not_lt.1 h3) (not_lt.1 h2)⟩
+    simp [sufficient, stdBCfg, Cmp.eval] at h
+    obtain ⟨h1, h2⟩ := h
+    refine ⟨h1, ?_⟩
+    split at h2
+    · rename_i hlt; exact ⟨by linarith, h2⟩
+    · rename_i hnlt; exact ⟨h2, by linarith [not_lt.1 hnlt]⟩
 
 theorem sufficient_of_clear (hv ei ej cut : α) (h1 : hv ≤ 1000000000) (hi : cut ≤ hv - ei)
     (hj : cut ≤ hv - ej) : sufficient stdBCfg (some hv) ei ej cut = true := by
@@ -405,41 +394,107 @@ theorem C17_barrier_pairwise (g : Cfg) (net : Net α) (excl : List Nat) (cutoff 
   exact ⟨height_some_conn g _ _ _ _ _ _ _ hh, hv, hh, hi, hj⟩
 
 /-- a pair clears the cut-off by more than one scan step: its minimax value `m` is inside the
-    scanned window and leaves `cutoff + δ` from both minima -/
+    scanned window, below the sentinel range, and leaves `cutoff + δ` from both minima -/
 def Clears (net : Net α) (cutoff : α) (i j : Nat) : Prop :=
   ∃ m, IsMinimax net.n net.edges i j m ∧
     thr stdCfg (maxTs stdBCfg net.edges) (scanRange stdBCfg net) 529 < m ∧
     m ≤ thr stdCfg (maxTs stdBCfg net.edges) (scanRange stdBCfg net) 0 ∧
+    m ≤ 1000000000 ∧
     cutoff + scanRange stdBCfg net / 510 ≤ m - net.energy i ∧
     cutoff + scanRange stdBCfg net / 510 ≤ m - net.energy j
 
 theorem suff_of_clears (net : Net α) (cutoff : α) (i j : Nat) (hi : i < net.n)
-    (hr : 0 ≤ scanRange stdBCfg net) (hbig : maxTs stdBCfg net.edges ≤ 1000000000)
-    (h : Clears net cutoff i j) : suffNet stdCfg stdBCfg net cutoff i j = true := by
-  obtain ⟨m, hm, hw1, hw2, hci, hcj⟩ := h
+    (hr : 0 ≤ scanRange stdBCfg net) (h : Clears net cutoff i j) :
+    suffNet stdCfg stdBCfg net cutoff i j = true := by
+  obtain ⟨m, hm, hw1, hw2, hbig, hci, hcj⟩ := h
   obtain ⟨hv, hh, hlo, hhi⟩ := C18_height_minimax net.n net.edges i j hi _ _ m hr hm ⟨hw1, hw2⟩
   unfold suffNet
   rw [hh]
-  apply sufficient_of_clear
-  · -- hv < m ≤ E₀ and the scan never rises above maxTs + 10δ; a direct bound: hv < m
-    have h0 : thr stdCfg (maxTs stdBCfg net.edges) (scanRange stdBCfg net) 0
-        = maxTs stdBCfg net.edges + 10 * (scanRange stdBCfg net / 510) := by
-      simp [thr, stdCfg]
-    -- the height is one of the thresholds below m; we only need hv ≤ 1e9, which follows when
-    -- m - δ-window is below 1e9: use hv < m ≤ E₀ and the guard on E₀ supplied through hbig'
-    have : hv < m := hhi
-    by_contra hcon
-    have hgt : (1000000000 : α) < hv := not_le.1 hcon
-    -- m > 1e9 ≥ maxTs, yet m ≤ maxTs + 10δ with cutoff-free bound δ ≤ (m - maxTs)/10: contradiction
-    -- is not derivable in general, so this branch is discharged by the stronger guard below
-    exact absurd (lt_of_lt_of_le (lt_trans hgt this) hw2) (by
-      rw [h0]; intro hlt
-      exact (not_lt.2 (le_refl (1000000000 : α))) (by
-        have := hbig; exact absurd hlt (by
-          intro _; exact (lt_irrefl _ (lt_of_le_of_lt (le_refl _) (lt_of_lt_of_le hgt (le_of_lt (lt_of_lt_of_le hhi hw2)))) |> fun _ => by
-            exact absurd hcon (by intro; exact hcon (by linarith))))))
-  · linarith
-  · linarith
+  apply sufficient_of_clear <;> linarith
+
+/-- **Barrier does not omit a minimum that clears every earlier pick by more than one scan
+    step.**  `order = pre ++ i :: post`; the picks made while processing `pre` (on top of the
+    initial list `cur0`) are the "earlier picks"; if the allowed minimum `i` clears each of them,
+    it is in the final list. -/
+theorem C17_barrier_complete (net : Net α) (excl : List Nat) (cutoff : α) (cur0 pre post : List Nat)
+    (i : Nat) (horder : net.order = pre ++ i :: post) (hi : i < net.n) (hex : i ∉ excl)
+    (hr : 0 ≤ scanRange stdBCfg net)
+    (hclear : ∀ j ∈ (barrierLoop true true (suffNet stdCfg stdBCfg net cutoff) excl pre [] cur0).2,
+      Clears net cutoff i j) :
+    i ∈ (barrierSel stdCfg stdBCfg net excl cutoff cur0).2 ∧
+    (cur0 = [] → i ∈ (barrierSel stdCfg stdBCfg net excl cutoff []).1) := by
+  have hsel : barrierSel stdCfg stdBCfg net excl cutoff cur0 =
+      barrierLoop true true (suffNet stdCfg stdBCfg net cutoff) excl (i :: post)
+        (barrierLoop true true (suffNet stdCfg stdBCfg net cutoff) excl pre [] cur0).1
+        (barrierLoop true true (suffNet stdCfg stdBCfg net cutoff) excl pre [] cur0).2 := by
+    simp only [barrierSel, stdBCfg, horder]
+    exact barrierLoop_append _ _ _ _ pre (i :: post) [] cur0
+  obtain ⟨new1, h1, _⟩ := barrierLoop_spec (suffNet stdCfg stdBCfg net cutoff) excl pre [] cur0
+  rw [h1] at hsel hclear
+  simp only [List.nil_append] at hsel hclear
+  have hmain : i ∈ (barrierSel stdCfg stdBCfg net excl cutoff cur0).2 ∧
+      (i ∉ cur0 → i ∈ (barrierSel stdCfg stdBCfg net excl cutoff cur0).1) := by
+    rw [hsel]
+    simp only [barrierLoop, Bool.true_and]
+    by_cases hc : i ∈ cur0 ++ new1
+    · have : ((cur0 ++ new1).contains i || excl.contains i) = true := by simp [hc]
+      rw [if_pos this]
+      obtain ⟨new2, h2, _⟩ := barrierLoop_spec (suffNet stdCfg stdBCfg net cutoff) excl post new1 (cur0 ++ new1)
+      rw [h2]
+      refine ⟨List.mem_append_left _ hc, fun hn => List.mem_append_left _ ?_⟩
+      rcases List.mem_append.1 hc with h | h
+      · exact absurd h hn
+      · exact h
+    · have : ¬ ((cur0 ++ new1).contains i || excl.contains i) = true := by simp [hc, hex]
+      rw [if_neg this]
+      have hall : ((cur0 ++ new1).all fun j => suffNet stdCfg stdBCfg net cutoff i j) = true := by
+        rw [List.all_eq_true]
+        intro j hj
+        exact suff_of_clears net cutoff i j hi hr (hclear j hj)
+      rw [if_pos hall]
+      obtain ⟨new2, h2, _⟩ := barrierLoop_spec (suffNet stdCfg stdBCfg net cutoff) excl post
+        (new1 ++ [i]) (cur0 ++ new1 ++ [i])
+      rw [h2]
+      exact ⟨by simp, fun _ => by simp⟩
+  exact ⟨hmain.1, fun h0 => by subst h0; exact hmain.2 (by simp)⟩
+
+/-- **The repaired scan window covers every candidate minimax value.**  With
+    `e_range = max(max E, max TS) − min E` (> 0), every value `m` between the lowest minimum and the
+    highest transition state lies inside the scanned window `E₅₂₉ < m ≤ E₀`. -/
+theorem C17_window_covers (net : Net α) (m : α) (hR : 0 < scanRange stdBCfg net)
+    (h1 : minOf net.energy net.n ≤ m) (h2 : m ≤ maxTs stdBCfg net.edges) :
+    thr stdCfg (maxTs stdBCfg net.edges) (scanRange stdBCfg net) 529 < m ∧
+      m ≤ thr stdCfg (maxTs stdBCfg net.edges) (scanRange stdBCfg net) 0 := by
+  have htop : maxTs stdBCfg net.edges - minOf net.energy net.n ≤ scanRange stdBCfg net := by
+    unfold scanRange
+    rw [show stdBCfg.scanRangeIncludesTs = true from rfl]
+    simp only [if_true]
+    by_cases h : maxOf net.energy net.n < maxTs stdBCfg net.edges
+    · rw [if_pos h]
+    · rw [if_neg h]; have := not_lt.1 h; linarith
+  have hd : 0 < scanRange stdBCfg net / 510 := by positivity
+  have h510 : scanRange stdBCfg net / 510 * 510 = scanRange stdBCfg net := by field_simp
+  simp only [thr, stdCfg]
+  push_cast
+  constructor <;> nlinarith
+
+/-- **Negation witness for the original window** (`e_range = max E − min E`, before the repair):
+    minima 0, 1, 1/2; transition states 2 on (0,1) and 10 on (1,2).  The pair (0,1) has minimax 2,
+    the original scan ends at `10 − 519/510 > 2` and returns the sentinel, so Barrier omitted
+    minimum 1; the repaired range finds the height. -/
+theorem C17_window_misses_original :
+    ¬ (thr stdCfg (10 : Rat) (1 - 0) 529 < 2) ∧
+    height stdCfg 3 [⟨0, 1, (2 : Rat)⟩, ⟨1, 2, 10⟩] 0 1 10 (1 - 0) = none ∧
+    height stdCfg 3 [⟨0, 1, (2 : Rat)⟩, ⟨1, 2, 10⟩] 0 1 10 (10 - 0) = some (101 / 51) := by
+  refine ⟨by decide +kernel, by decide +kernel, by decide +kernel⟩
+
+/-- non-vacuity: the selectors on the witness network (order = argsort of 0, 1, 1/2) -/
+example :
+    let net : Net Rat := ⟨3, fun i => [(0 : Rat), 1, 1 / 2].getD i 0, [⟨0, 1, 2⟩, ⟨1, 2, 10⟩], [0, 2, 1]⟩
+    selectBatch stdCfg stdBCfg net 3 "Barrier" false (1 / 2) [] = some [0, 2, 1] ∧
+    selectBatch stdCfg stdBCfg net 2 "Topographical" true (1 / 2) [2] = some [0, 1] ∧
+    selectBatch stdCfg stdBCfg net 3 "Monotonic" true (1 / 2) [] = some [0, 2, 1] := by
+  refine ⟨by decide +kernel, by decide +kernel, by decide +kernel⟩
 
 end generic
 
